@@ -262,6 +262,7 @@ func checkC03(c *Ctx, r *Report) {
 	c03R2(c, r)
 	c03R3(c, r)
 	c03R4(c, r)
+	c03SuffixIndex(c, r, "C03.R1.suffix-index")
 }
 
 func c03R2(c *Ctx, r *Report) {
